@@ -1,5 +1,5 @@
 """C14: the BLE signature-metadata route (`HapVerif.BleMeta`, theorems C14_ble_*) against the real
-`aiohomekit.controller.ble.structs.Characteristic`.
+`aiohomekit.controller.ble.structs.Characteristic` and `aiohomekit.controller.coap.structs.Pdu09Characteristic` (the same chains).
 
 The declared range and step of every BLE characteristic reach the accessory database through `min_max_value` / `min_step` /
 `to_dict` of this object.  Stream: every presentation-format code 0..0x20 (and a few beyond) x descriptors of every length 0..17
@@ -25,12 +25,17 @@ def canon(s):
     return s
 
 
-def real(code, kind, desc):
-    from aiohomekit.controller.ble.structs import Characteristic
+def real(code, kind, desc, route="ble"):
+    import dataclasses
+    if route == "ble":
+        from aiohomekit.controller.ble.structs import Characteristic as Cls
+    else:
+        from aiohomekit.controller.coap.structs import Pdu09Characteristic as Cls
     pf = None if code is None else struct.pack("<BxHxxx", code, 0x2700)
-    ch = Characteristic(type=0x25, instance_id=9, properties=0x30, presentation_format=pf, valid_range=desc if kind == "range" else None,
-                        step_value=desc if kind == "step" else None, valid_values=None, valid_values_range=None, service_instance_id=None, service_type=None,
-                        user_description=None)
+    kw = {f.name: None for f in dataclasses.fields(Cls) if f.init}
+    kw.update(type=0x25, instance_id=9, properties=0x30, presentation_format=pf, valid_range=desc if kind == "range" else None,
+              step_value=desc if kind == "step" else None)
+    ch = Cls(**kw)
     try:
         r = ch.min_max_value if kind == "range" else ch.min_step
     except struct.error:
@@ -69,14 +74,16 @@ def run_blemeta(ctx: Ctx, driver: Driver):
     cases, outs, lines = [], [], []
 
     def add(code, kind, desc, why):
-        case = {"stream": "ble-meta", "code": code, "kind": kind, "desc": desc.hex(), "why": why}
+        route = rng.choice(["ble", "coap"])
+        case = {"stream": "ble-meta", "code": code, "kind": kind, "desc": desc.hex(), "why": why, "route": route}
         try:
-            out = real(code, kind, desc)
+            out = real(code, kind, desc, route)
         except Exception as e:  # noqa: BLE001
             ctx.violation(f"blemeta/{kind}/{type(e).__name__}", f"format 0x{code:02x}, {kind} descriptor {desc.hex() or '-'}: raised {type(e).__name__}: {e}", case)
             return None
         ctx.evaluations += 1
         ctx.dist[f"ble-meta:{kind}:{why}"] += 1
+        ctx.dist[f"ble-meta:route:{route}"] += 1
         cases.append(case)
         outs.append(out)
         lines.append(f"bm.{kind} {code} {desc.hex() or '-'}")
@@ -110,6 +117,6 @@ def run_blemeta(ctx: Ctx, driver: Driver):
 
 def replay_blemeta(ctx: Ctx, driver: Driver, case):
     code, kind, desc = case["code"], case["kind"], bytes.fromhex(case["desc"])
-    out = real(code, kind, desc)
+    out = real(code, kind, desc, case.get("route", "ble"))
     compare_with_model(ctx, "ble-meta", [case], [out], [f"bm.{kind} {code} {desc.hex() or '-'}"], driver, canon=canon)
     return None
